@@ -451,6 +451,11 @@ def drive(role, res, rng, flags, tier, search, replay_cases=None):
         for system in (0, 1, 0x7FFFFFFF, 0x80000000, 0xFFFFFFFE, 0xFFFFFFFF, 0):
             for (s, f, body) in ((1, 1, b""), (1, 3, b"\xff"), (99, 1, b""), (1, 13, b"\x01\x00"), (2, 17, b"")):
                 st.send(s, f, 1, body, f"sys-{system:#x}", system=system)
+        # 1c. fault: the transport writes the reply frame and reports an error all the same: still one frame per system bytes
+        for (s, f, body) in ((1, 1, b""), (99, 1, b""), (1, 3, b"\xff"), (1, 13, b"\x01\x00")):
+            st.rig.c.lie = 1
+            st.send(s, f, 1, body, "send-reported-failed")
+            st.rig.c.lie = 0
         # 2. uncatalogued pairs
         for (s, f) in uncatalogued_pairs(rng, tier, search):
             w = 1 if tier == "thorough" else rng.below(4) != 0
